@@ -15,28 +15,37 @@ EXTENDS Integers, Sequences, FiniteSets, TLC, Json
 Cases == ndJsonDeserialize("cases.ndjson")
 VARIABLE i
 
-Par(c, n) == IF \E k \in 1..Len(c.parents) : c.parents[k][1] = n
-             THEN c.parents[CHOOSE k \in 1..Len(c.parents) : c.parents[k][1] = n][2] ELSE "-"
+\* c.par is the logged parent map as a record  child |-> parent  (plus the dummy entry "zz_" |-> "-", so that
+\* an empty forest is still a record); record lookup keeps long chains (1000+ frames) affordable
+Par(c, n) == IF n \in DOMAIN c.par THEN c.par[n] ELSE "-"
+NPar(c) == Cardinality(DOMAIN c.par)
 RECURSIVE Up(_, _, _)
 Up(c, n, k) == IF n = "-" \/ k = 0 THEN <<>> ELSE <<n>> \o Up(c, Par(c, n), k - 1)
-Chain(c, n) == Up(c, n, Len(c.parents) + 2)                  \* n, parent(n), ..., root
+Chain(c, n) == Up(c, n, NPar(c) + 2)                         \* n, parent(n), ..., root
 InSeq(s, e) == \E k \in 1..Len(s) : s[k] = e
 Pos(s, e) == CHOOSE k \in 1..Len(s) : s[k] = e
 Rev(s) == [k \in 1..Len(s) |-> s[Len(s) + 1 - k]]
+\* index of the first element of ua that also lies on ub (0 when there is none): the lowest common ancestor
+RECURSIVE FirstIn(_, _, _)
+FirstIn(ua, ub, k) == IF k > Len(ua) THEN 0 ELSE IF InSeq(ub, ua[k]) THEN k ELSE FirstIn(ua, ub, k + 1)
 
-Connected(c) == \E k \in 1..Len(Chain(c, c.a)) : InSeq(Chain(c, c.b), Chain(c, c.a)[k])
-\* term: sequence of [n |-> child node whose incoming edge is used, inv |-> traversed child -> parent]
-Term(c) ==
+\* [conn |-> connected?, term |-> sequence of [n |-> child node whose incoming edge is used,
+\*                                            inv |-> traversed child -> parent]]
+Judge(c) ==
     LET ua == Chain(c, c.a)  ub == Chain(c, c.b)
-        lca == ua[CHOOSE k \in 1..Len(ua) : InSeq(ub, ua[k]) /\ \A j \in 1..(k - 1) : ~InSeq(ub, ua[j])]
-        up == SubSeq(ua, 1, Pos(ua, lca) - 1)                \* a ... below lca: inverted edges, a's first
-        down == Rev(SubSeq(ub, 1, Pos(ub, lca) - 1))         \* below lca ... b: forward edges
-    IN [k \in 1..Len(up) |-> [n |-> up[k], inv |-> TRUE]] \o [k \in 1..Len(down) |-> [n |-> down[k], inv |-> FALSE]]
+        k == FirstIn(ua, ub, 1)
+    IN IF k = 0 THEN [conn |-> FALSE, term |-> <<>>]
+       ELSE LET lca == ua[k]
+                up == SubSeq(ua, 1, k - 1)                       \* a ... below lca: inverted edges, a's first
+                down == Rev(SubSeq(ub, 1, Pos(ub, lca) - 1))     \* below lca ... b: forward edges
+            IN [conn |-> TRUE,
+                term |-> [j \in 1..Len(up) |-> [n |-> up[j], inv |-> TRUE]] \o
+                         [j \in 1..Len(down) |-> [n |-> down[j], inv |-> FALSE]]]
 
 Init == i = 1
 Next == i < Len(Cases) /\ i' = i + 1
-Tell == LET c == Cases[i] IN
-        PrintT(ToJson([id |-> c.id, conn |-> Connected(c), term |-> IF Connected(c) THEN Term(c) ELSE <<>>]))
-\* forest sanity of the logged projection itself (a parent map is acyclic by construction of the walk)
-Acyclic == LET c == Cases[i] IN \A k \in 1..Len(c.parents) : Len(Chain(c, c.parents[k][1])) <= Len(c.parents) + 1
+Tell == LET c == Cases[i]  j == Judge(c) IN
+        PrintT(ToJson([id |-> c.id, conn |-> j.conn, term |-> j.term]))
+\* forest sanity of the logged projection itself: every walk to the root ends within the number of entries
+Acyclic == LET c == Cases[i] IN \A n \in DOMAIN c.par : Len(Chain(c, n)) <= NPar(c) + 1
 =============================================================================
